@@ -191,7 +191,16 @@ def check_messages(tasks_msgs, orders, subsets, perm_limit, subset_limit):
                         info["desc_before_anc"] = True
                         break
             try:
-                completed, parser = parser.add(pmap(m) if nperm % 4 == 3 else m)
+                if nperm % 4 == 3:
+                    # the message as another Mapping (what eliot's own WrittenMessage.as_dict() returns): a parser may
+                    # refuse it loudly (then a plain dict is used), but it must not drop it silently
+                    try:
+                        completed, parser = parser.add(pmap(m))
+                    except (TypeError, AttributeError):
+                        info["pmap_refused"] = True
+                        completed, parser = parser.add(m)
+                else:
+                    completed, parser = parser.add(m)
                 if isinstance(completed, list):
                     raw_list = completed
                     completed = list(raw_list)
